@@ -97,6 +97,22 @@ func (db *DB) Merge() error {
 	if db.hintPos == nil {
 		db.hintPos = make([]byte, datafile.MaxLogRecordPosSize)
 	}
+	// 关闭临时实例打开的全部文件, 包括重写过程中轮换产生的旧文件
+	closeMergeFiles := func() error {
+		var firstErr error
+		for _, file := range mergeDB.olderFiles {
+			if err := file.Close(); err != nil && firstErr == nil {
+				firstErr = err
+			}
+		}
+		mergeDB.olderFiles = make(map[uint32]*datafile.DataFile)
+		if mergeDB.activeFile != nil {
+			if err := mergeDB.activeFile.Close(); err != nil && firstErr == nil {
+				firstErr = err
+			}
+		}
+		return firstErr
+	}
 
 	// 执行 merge
 	// 依次读取每个数据文件, 解析得到日志记录并写入新 merge 目录
@@ -134,10 +150,8 @@ func (db *DB) Merge() error {
 	if err := hintFile.Close(); err != nil {
 		return err
 	}
-	if mergeDB.activeFile != nil {
-		if err := mergeDB.activeFile.Close(); err != nil {
-			return err
-		}
+	if err := closeMergeFiles(); err != nil {
+		return err
 	}
 
 	vhook.Point("merge.beforeMarker")
